@@ -533,7 +533,31 @@ def main(n: int):
 '''
 
 
+TWEEZER_CLOSURE_SRC = '''
+@tweezer{DEC}
+def main(n: int):
+    z = spec.get_static_trap(zone_id="traps")
+    def hop(g):
+        action.move(g)
+        action.turn_on(slice(1, None), [0])
+    def back(k: int):
+        action.move(grid.shift(z[0:2, 0:1], spec.get_float_constant(constant_id="pitch"), 1.0 * k))
+        action.turn_off([0], action.ALL)
+    action.set_loc(z[0:2, 0:1])
+    action.turn_on(action.ALL, action.ALL)
+    hop(spec.get_special_grid(grid_id="park")[0:2, 0:1])
+    if n > 0:
+        hop(spec.get_static_trap(zone_id="aux")[0:2, 0:1])
+    back(n)
+'''
+
+
 def tweezer_kernels(ctx, S):
+    for src in (TWEEZER_SRC, TWEEZER_CLOSURE_SRC):
+        tweezer_kernels_of(ctx, S, src)
+
+
+def tweezer_kernels_of(ctx, S, TWEEZER_SRC):
     """@tweezer(arch_spec=...) with and without the fold: traced WITHOUT any spec knowledge it must give the path the
     unspecialised kernel gives when traced with the spec"""
     from bloqade.shuttle.arch import ArchSpec
@@ -689,6 +713,17 @@ def replay(data):
                 return True, "refused"
             bad = bad or got != (X.layout.static_traps["traps"], X.layout.special_grid["park"], X.int_constants["rows"], X.float_constants["pitch"])
         return bad, "history replayed"
+    if inp.get("kernel_kind") == "tweezer" and "src" in inp:
+        class C:
+            def __init__(s): s.fails, s.evaluations = [], 0
+            def fail(s, sig, rep, what): s.fails.append(what)
+            def hist(s, *a): pass
+            def obligation(s, name, ok, log=""):
+                if not ok: s.fails.append(name + ": " + log)
+        c = C()
+        S = c06_spec()
+        tweezer_kernels_of(c, S, inp["src"].replace(f"(arch_spec=S, fold={inp['fold']})", "{DEC}"))
+        return bool(c.fails), (c.fails or ["same path on both routes"])[0][:200]
     if "src" not in inp:
         return True, "re-run bin/check C06 (reflected table)"
     from bloqade.shuttle.arch import ArchSpecInterpreter
